@@ -350,7 +350,7 @@ func run(c *mon.Ctx) {
 		if !c.Mine(b) {
 			continue
 		}
-		for _, k := range []string{string([]byte{byte(b)}), "a" + string([]byte{byte(b)}) + "b"} {
+		for _, k := range []string{string([]byte{byte(b)}), "a" + string([]byte{byte(b)}) + "b", string([]byte{byte(b)}) + "ref"} {
 			c.Cover("key-bytes")
 			c.DistinctEnum(5)
 			ck.lossy = !utf8.ValidString(k)
@@ -449,6 +449,16 @@ func run(c *mon.Ctx) {
 			jpspec.Bin("exists", jpspec.P(jpspec.At(), jpspec.Child("k"), jpspec.Filter(jpspec.Bin("gt", jpspec.P(jpspec.At()), jpspec.CInt(1)))), jpspec.CBool(true)),
 			jpspec.Bin("eq", jpspec.P(jpspec.At(), jpspec.Child("zz")), jpspec.CNothing()),
 			jpspec.Bin("in", jpspec.P(jpspec.At(), jpspec.Child("i")), jpspec.CList([]any{int64(1), "a'b", nil, true, 2.5, []any{int64(1)}})),
+			// unary not over functions and bare paths, binary operations as function arguments
+			{Op: "not", L: jpspec.Bin("match", jpspec.P(jpspec.At(), jpspec.Child("s")), jpspec.CStr("a.c"))},
+			{Op: "not", L: jpspec.Bin("search", jpspec.P(jpspec.At(), jpspec.Child("s")), jpspec.CStr("b"))},
+			jpspec.Bin("and", &jpref.Eq{Op: "not", L: jpspec.Bin("match", jpspec.P(jpspec.At(), jpspec.Child("s")), jpspec.CStr("zzz"))}, jpspec.Bin("eq", jpspec.P(jpspec.At(), jpspec.Child("t")), jpspec.CBool(true))),
+			jpspec.Bin("match", jpspec.Bin("add", jpspec.P(jpspec.At(), jpspec.Child("s")), jpspec.CStr("x")), jpspec.CStr("abcx")),
+			jpspec.Bin("search", jpspec.Bin("add", jpspec.CStr("q"), jpspec.P(jpspec.At(), jpspec.Child("s"))), jpspec.CStr("qa")),
+			jpspec.Bin("and", &jpref.Eq{Op: "not", L: jpspec.P(jpspec.At(), jpspec.Child("t"))}, jpspec.P(jpspec.At(), jpspec.Child("f"))),
+			jpspec.Bin("or", &jpref.Eq{Op: "not", L: jpspec.P(jpspec.At(), jpspec.Child("f"))}, jpspec.Bin("eq", jpspec.P(jpspec.At(), jpspec.Child("i")), jpspec.CInt(1))),
+			jpspec.Bin("eq", &jpref.Eq{Op: "length", L: jpspec.P(jpspec.At(), jpspec.Child("s"))}, jpspec.Bin("add", jpspec.CInt(1), jpspec.CInt(2))),
+			{Op: "not", L: jpspec.Bin("eq", &jpref.Eq{Op: "length", L: jpspec.P(jpspec.At(), jpspec.Child("s"))}, jpspec.CInt(3))},
 		} {
 			ck.equation(e, "function-or-constant", elems)
 		}
